@@ -31,6 +31,25 @@ CHECKS = [
           'files), double_sha256 as uninterpreted function. Outside: non-canonical varints, other shapes, blocks of '
           'more than 4 transactions.',
   'design_ref': 'DESIGN.md section 4, C13'},
+ {'id': 'C01',
+  'text': 'K3: a symbolic chain from genesis (tx hash prefixes, values, marked script bytes, spend selectors, activation '
+          'height symbolic; flush schedule enumerated) is indexed by the real advance_block/flush_dbs and all_utxos, '
+          'lookup_utxos, counts, tip, headers and tx-hash files are proved equal to an independent reference indexer on '
+          'every feasible path.  K1: UTXO table layout round trip with every key/value byte of 2-3 records symbolic '
+          '(prefix+index collisions included) through the real flush_utxo_db / spend_utxo / all_utxos / lookup_utxos.',
+  'note': 'Trusted: CPython, z3, symx proxies and shims (native witness replay on real LevelDB), MemStore/MemFS as '
+          'models of LevelDB and files, sha256 as injective uninterpreted function (script-hash prefix collisions '
+          'free), sorted() over symbolic keys in batch-building loops taken as order-insensitive. Outside: chains '
+          'longer than 3 blocks, more than one free prefix-collision pair per scenario (K1 covers 3 mutually '
+          'colliding records), prefetch batching, RocksDB.',
+  'design_ref': 'DESIGN.md section 4, C01'},
+ {'id': 'C02',
+  'text': 'K3: the C01 chain scenario with limited_history (every script-hash class, every limit), fs_tx_hash and '
+          'fs_tx_hashes_at_blockheight proved equal to the reference.  K1: history rows over several flushes with '
+          'symbolic script hashes, solver-enumerated touched patterns and a symbolic limit (all integers).  K2: '
+          'fs_tx_hash over symbolic cumulative counts and stored height (every bisect boundary).',
+  'note': 'As C01.  Outside: tx numbers other than the listed byte-boundary values in K1, flush ids beyond 65535.',
+  'design_ref': 'DESIGN.md section 4, C02'},
 ]
 _TODO = 'check not built yet in this revision (planned, see DESIGN.md section 4); no claim is made'
-NOT_APPLICABLE = [{'property_id': f'C{n:02d}', 'reason': _TODO} for n in range(1, 20) if n not in (12, 13)]
+NOT_APPLICABLE = [{'property_id': f'C{n:02d}', 'reason': _TODO} for n in range(1, 20) if n not in (1, 2, 12, 13)]
